@@ -5,6 +5,10 @@ HERE = os.path.dirname(os.path.dirname(os.path.abspath(__file__)))
 ALL = [f'C{i:02d}' for i in range(1, 21)]
 
 CHECKS = {
+ 'C06': dict(level='fault_enumeration', design='3/C06',
+   technique='fault-schedule injection on the loop-back transport between the real provider and consumer (drop / duplicate / hold-back / swap / replay / restart / reload in flight) with online monitors after every delivered or withheld message; provider version history as oracle',
+   text='The transport captures every notification of the real provider (acknowledging it so that the subscription stays alive) and delivers the captured bytes to the real consumer according to seeded schedules built from the operators of the property: drop, duplicate immediately / later, hold back and release after further commits, swap neighbours, replay a window, provider restart (new SequenceId and/or InstanceId, MdibVersion continued / lower / higher), application reload, reload with the GetMdib response held in flight while further transactions are committed and their notifications (plus held-back older ones) are delivered from another thread. After every delivered or withheld message: consumer MdibVersion and every per-handle version non-decreasing, a stale or duplicated delivery leaves the canonical snapshot unchanged, lookups agree with a scan, every state held equals the content the provider published under (handle, version), nothing changes between an id change and the reload; after reload + in-order delivery the consumer snapshot equals the provider snapshot.',
+   note='Notifications are re-delivered as the exact bytes the provider produced. Delivery during reload uses a second thread that is joined before the GetMdib response is released (deterministic). Schedules are sampled from the operator space, not enumerated.'),
  'C07': dict(level='exploration', design='3/C07',
    technique='deterministic schedule exploration at lock granularity (instance-level lock proxies, foreign transactions run at every scheduling point of the reader) + thread stress; per-version snapshot history as oracle',
    text='The MDIB lock and the three table locks of the provider MDIB under test are replaced on the instance by proxies that report the outermost acquire / release events of the reader. For every request kind (GetMdib, GetMdDescription with/without handles, GetMdState all / handles / context descriptor, GetContextStates all / descriptor / MDS) every scheduling point the request exposes is enumerated and 1 (and 2, for one MDIB in quick, all in thorough) complete foreign transactions of five kinds (requested state, other state, descriptor update, descriptor create, new associated context state) are executed at that point; requests go through the real consumer service clients over the loop-back. A snapshot history recorded inside the commit critical section is the oracle: every entity of a response must equal by_version[v] for the stated MdibVersion v and the selection must be the one at v. A thread stress (3 writers, 3 readers, 10 us switch interval) checks every response the same way. Exhaustive within the stated bounds for the lock-granularity schedules, sampled for finer interleavings.',
